@@ -20,7 +20,7 @@ func init() {
 				"Not decided: open-descriptor timing (kernel decides when IN_DELETE_SELF is raised); 'reports nothing further' as a behaviour.",
 			Rule:        "one obligation per (guard, required effect) pair; implication guard => reaching condition of the effect decided over all assignments of the atoms involved",
 			Assumptions: []string{"go/types + go/ssa", "inotify(7) semantics of IN_IGNORED / IN_DELETE_SELF / IN_MOVE_SELF"},
-			MinObl:      9,
+			MinObl:      12,
 		},
 		Configs: tiered(linuxQuick, linuxAll),
 		Run:     runC09,
